@@ -114,7 +114,8 @@ Record server := {
   sv_filter : option N;
   sv_rules : list rule;
   sv_backends : list string;    (* names the MuxMapper knows *)
-  sv_body : Z }.                (* clientMaxBodySize of the server (0 = default 4 MiB, < 0 = unlimited) *)
+  sv_body : Z;                  (* clientMaxBodySize of the server (0 = default 4 MiB, < 0 = unlimited) *)
+  sv_xff : bool }.              (* server option xForwardedFor: append the client address for the backend *)
 
 Record request := {
   rq_host : string;
@@ -430,7 +431,7 @@ Section Mux.
 
   Definition with_mapper (sv : server) (m : mapper) : server :=
     {| sv_filter := sv_filter sv; sv_rules := sv_rules sv; sv_backends := map fst m;
-       sv_body := sv_body sv |}.
+       sv_body := sv_body sv; sv_xff := sv_xff sv |}.
 
   (** identity of the handler invoked (None: no handler invoked) *)
   Definition handler_of (m : mapper) (o : outcome) : option N :=
@@ -442,17 +443,42 @@ Section Mux.
   Definition serve_hist (sv : server) (steps : list (mapper * request)) : list (outcome * option N) :=
     map (fun s => serve_mapped sv (fst s) (snd s)) steps.
 
+  (** *** xForwardedFor (mux.go appendXForwardedFor): AFTER routing and rewriting, the gateway
+      records the client address in X-Forwarded-For for the backend.  Routing is a function of
+      the request as received - nothing above reads [sv_xff] - while the handler sees the
+      appended header.  [forwarded_for] = first value of X-Forwarded-For seen by the handler. *)
+  Fixpoint str_contains (sub s : string) : bool :=
+    is_prefix sub s || match s with String _ t => str_contains sub t | EmptyString => false end.
+
+  Definition forwarded_for (sv : server) (rq : request) : string :=
+    let v := hget "X-Forwarded-For" (rq_headers rq) in
+    if negb (sv_xff sv) then v
+    else match alookup "X-Forwarded-For" (rq_headers rq) with
+         | None => rq_ip rq                        (* Header.Add: the only value *)
+         | Some _ =>
+             if negb (nonempty v) then v           (* Header.Add after an empty first value: Get still "" *)
+             else if str_contains (rq_ip rq) v then v
+             else v ++ "," ++ rq_ip rq
+         end.
+
+  Definition set_xff (b : bool) (sv : server) : server :=
+    {| sv_filter := sv_filter sv; sv_rules := sv_rules sv; sv_backends := sv_backends sv;
+       sv_body := sv_body sv; sv_xff := b |}.
+
   (** *** histories with reloads (mux.reload): a reload installs a new generation with the new
       spec and a FRESH, EMPTY route cache *)
   Inductive op :=
   | OReq (keep : key -> bool) (rq : request)
-  | OReload (sv' : server).
+  | OReload (sv' : server)
+  | OMap (m : mapper).          (* the MuxMapper content changes (pipelines created / deleted /
+                                   replaced); the server is NOT reloaded, the route cache stays *)
 
   Fixpoint run_ops (q : quirks) (sv : server) (c : cache) (ops : list op) : list outcome :=
     match ops with
     | [] => []
     | OReq keep rq :: t => let '(o, c') := step q sv c keep rq in o :: run_ops q sv c' t
     | OReload sv' :: t => run_ops q sv' [] t
+    | OMap m :: t => run_ops q (with_mapper sv m) c t
     end.
 
   (** the cache-less twin on the same history *)
@@ -461,6 +487,7 @@ Section Mux.
     | [] => []
     | OReq _ rq :: t => serve_nocache sv rq :: ref_ops sv t
     | OReload sv' :: t => ref_ops sv' t
+    | OMap m :: t => ref_ops (with_mapper sv m) t
     end.
 
   (** *** filters erased (C05 "as if no filter existed") *)
@@ -476,7 +503,7 @@ Section Mux.
 
   Definition erase_filters (sv : server) : server :=
     {| sv_filter := None; sv_rules := map erase_rule (sv_rules sv); sv_backends := sv_backends sv;
-       sv_body := sv_body sv |}.
+       sv_body := sv_body sv; sv_xff := sv_xff sv |}.
 
   (** validated configurations (spec.go Path.Validate / Header.Validate) *)
   Definition valid_header (h : header_cond) : bool :=
